@@ -491,6 +491,8 @@ func (c20) Case(c *core.Ctx) {
 			cmp("x2j-wrapper.ValuesFromTagPath", e == nil && jv.MultisetEqual(gt, all), nil)
 			gt, e = x2jw.ReaderValuesFromTagPath(plainReader{bytes.NewReader(side.raw)}, wpath)
 			cmp("x2j-wrapper.ReaderValuesFromTagPath", e == nil && jv.MultisetEqual(gt, wantF), nil)
+			gt, e = x2jw.ReaderValuesFromTagPath(plainReader{bytes.NewReader(side.raw)}, wpath, true)
+			cmp("x2j-wrapper.ReaderValuesFromTagPath(attrs)", e == nil && jv.MultisetEqual(gt, all), nil)
 		}
 		// ValuesAtKeyPath: the parents of the last key; nil when no parent has it
 		for _, ga := range []bool{false, true} {
